@@ -1338,7 +1338,11 @@ func (f *FuncCtx) rangeStmt(s *ast.RangeStmt, env *Env, fl *flow, label string) 
 			setKV(e, &v, nil)
 		}
 		cond := func(e *Env) string { return f.fresh("more", "Bool") }
-		return f.loopCommon(label, env, fl, nodes, s.Body.Lbrace, ghost, nil, cond, bind, s.Body, post)
+		implicit := func(e *Env) []string {
+			sync(e)
+			return []string{fmt.Sprintf("(<= 0 %s)", idx(e).T)}
+		}
+		return f.loopCommon(label, env, fl, nodes, s.Body.Lbrace, ghost, implicit, cond, bind, s.Body, post)
 	}
 	f.fail("unsupported range over %s", x.Typ)
 	return env
